@@ -115,11 +115,68 @@ def run_funcs(cases):
                 finally:
                     regions.VoxelRegion.dilation = orig
                 out.append(r)
+            elif k == "bufbox":
+                out.append(run_bufbox(case))
             else:
                 out.append(None)
         except Exception as e:
             out.append({"exc": type(e).__name__, "msg": str(e)[:200]})
     return out
+
+
+def run_bufbox(case):
+    """the fast path of MeshVolumeRegion._bufferOverapproximate (pitch >= 1) on a mesh region placed anywhere:
+    observable result = class, position, dimensions and the bounds of the returned region, plus membership of
+    probe points (vertices of the input mesh displaced by at most the buffer)."""
+    import numpy
+    import trimesh
+    from scenic.core import regions
+    from scenic.core.vectors import Orientation, Vector
+    shape, args = case["shape"], case["args"]
+    if shape == "boxregion":
+        reg = regions.BoxRegion(dimensions=tuple(args), position=Vector(*case["position"]),
+                                rotation=Orientation.fromEuler(*case["rotation"]))
+    elif shape == "spheroid":
+        reg = regions.SpheroidRegion(dimensions=tuple(args), position=Vector(*case["position"]),
+                                     rotation=Orientation.fromEuler(*case["rotation"]))
+    else:
+        mk = {"cone": lambda a: trimesh.creation.cone(radius=a[0], height=a[1]),
+              "cylinder": lambda a: trimesh.creation.cylinder(radius=a[0], height=a[1]),
+              "icosphere": lambda a: trimesh.creation.icosphere(radius=a[0], subdivisions=1),
+              "capsule": lambda a: trimesh.creation.capsule(radius=a[0], height=a[1]),
+              "annulus": lambda a: trimesh.creation.annulus(r_min=a[0], r_max=a[0] + a[1], height=a[2]),
+              "box": lambda a: trimesh.creation.box(extents=a)}[shape]
+        reg = regions.MeshVolumeRegion(mk(args), position=Vector(*case["position"]),
+                                       rotation=Orientation.fromEuler(*case["rotation"]),
+                                       centerMesh=case.get("center", True))
+    b = case["buffer"]
+    bounds = numpy.array(reg.mesh.bounds, dtype=float)
+    res = reg._bufferOverapproximate(b, case["pitch"])
+    r = dict(bounds=[[fl(x) for x in row] for row in bounds], cls=type(res).__name__)
+    if hasattr(res, "position") and hasattr(res, "dimensions"):
+        r["position"] = [fl(x) for x in vec3(res.position)]
+        r["dimensions"] = [fl(float(x)) for x in res.dimensions]
+    if hasattr(res, "mesh"):
+        r["res_bounds"] = [[fl(x) for x in row] for row in numpy.array(res.mesh.bounds, dtype=float)]
+    rs = random.Random(case["probe_seed"])
+    verts = numpy.array(reg.mesh.vertices, dtype=float)
+    probes = []
+    for _ in range(case.get("nprobe", 12)):
+        v = verts[rs.randrange(len(verts))]
+        d = numpy.array([rs.gauss(0, 1) for _ in range(3)])
+        n = float(numpy.linalg.norm(d)) or 1.0
+        d = d / n * b * rs.choice([1.0, 0.999, 0.5, rs.random()])
+        if rs.random() < 0.4:       # straight out through a face of the bounding box
+            ax = rs.randrange(3)
+            d = numpy.zeros(3); d[ax] = b * rs.choice([-1, 1]) * 0.999
+        q = v + d
+        inside = bool(res.containsPoint(Vector(*q)))
+        if not inside:
+            inside = bool(res.distanceTo(Vector(*q)) <= 1e-6 * max(1.0, b))
+        probes.append([[float(x) for x in v], [float(x) for x in q], inside])
+    r["probes_outside"] = [pr for pr in probes if not pr[2]][:3]
+    r["nprobes"] = len(probes)
+    return r
 
 
 def run_maxdist(cases):
@@ -178,7 +235,8 @@ def run_program(case):
     from scenic.core import pruning
     from scenic.core.distributions import Samplable, needsSampling
     from scenic.core.errors import InvalidScenarioError
-    from scenic.core.vectors import Vector
+    from scenic.core.utils import DefaultIdentityDict
+    from scenic.core.vectors import Vector, VectorOperatorDistribution
     out = dict(id=case["id"])
     # unpruned
     translator.usePruning = False
@@ -192,6 +250,7 @@ def run_program(case):
         translator.usePruning = True
         return out
     accepted = []
+    kept = []           # the sampled scenes themselves: property values to substitute into random pruned regions
     t0 = time.time()
     for k in range(case["nscenes"]):
         try:
@@ -199,13 +258,15 @@ def run_program(case):
         except Exception as e:
             out.setdefault("unpruned_gen_fail", 0)
             out["unpruned_gen_fail"] += 1
-            if time.time() - t0 > case.get("budget", 60):
+            if time.time() - t0 > case.get("budget", 60) or (not accepted and time.time() - t0 > case.get("budget", 60) / 3):
                 break
             continue
         accepted.append([vec3(o.position) for o in scene.objects])
+        kept.append(scene)
         if time.time() - t0 > case.get("budget", 60):
             break
     out["n_accepted"] = len(accepted)
+    out["t_unpruned"] = round(time.time() - t00, 2)
     # pruned
     translator.usePruning = True
     random.seed(case["seed"]); numpy.random.seed(case["seed"])
@@ -246,6 +307,10 @@ def run_program(case):
         pos = obj.position
         cur = pos._conditioned if isinstance(pos, Samplable) else pos
         info["conditioned"] = cur is not pos
+        inner = getattr(pos, "object", None)    # <point in region> + offset: pruning conditions the point itself
+        if (not info["conditioned"] and isinstance(pos, VectorOperatorDistribution) and isinstance(inner, Samplable)
+                and inner._conditioned is not inner):
+            info["conditioned"] = info["conditioned_inner"] = True
         base = offset = None
         try:
             m = pruning.matchInRegion(cur)
@@ -253,27 +318,48 @@ def run_program(case):
         except Exception as e:
             info["match_error"] = type(e).__name__
         info["region"] = type(base).__name__ if base is not None else None
-        if base is not None and not needsSampling(base) and (offset is None or not needsSampling(offset)) and info["conditioned"]:
+        random_region = base is not None and (needsSampling(base) or (offset is not None and needsSampling(offset)))
+        if base is not None and info["conditioned"]:
             nout = 0
-            for sc in accepted:
+            info["substituted"] = bool(random_region)
+            for si, sc in enumerate(accepted):
                 p = Vector(*sc[i])
-                if offset is not None:
-                    p = p - offset
+                b, off = base, offset
                 try:
-                    inside = bool(base.containsPoint(p))
+                    if random_region:
+                        # the pruned region depends on random properties of (other) objects, e.g. the view region of
+                        # an observer with a random pose: evaluate it at the property values of the accepted scene
+                        sub = DefaultIdentityDict()
+                        for po, so in zip(pruned.objects, kept[si].objects):
+                            for prop in po.properties:
+                                v = getattr(po, prop)
+                                if needsSampling(v):
+                                    sub[v] = getattr(so, prop)
+                        if needsSampling(base):
+                            b = base.sample(sub)
+                        if offset is not None and needsSampling(offset):
+                            off = offset.sample(sub)
+                    if off is not None:
+                        p = p - off
+                    inside = bool(b.containsPoint(p))
                     if not inside:
-                        inside = base.distanceTo(p) <= 1e-6
+                        inside = b.distanceTo(p) <= 1e-6
                 except Exception as e:
-                    info["contains_error"] = type(e).__name__
+                    info["contains_error"] = type(e).__name__ + ": " + str(e)[:120]
                     break
                 if not inside:
                     nout += 1
                     if len(outside) < 3:
                         try:
-                            d = float(base.distanceTo(p))
+                            d = float(b.distanceTo(p))
                         except Exception:
                             d = None
-                        outside.append(dict(obj=i, pos=sc[i], dist_to_pruned_region=d))
+                        w = dict(obj=i, pos=sc[i], dist_to_pruned_region=d, pruned_region=type(b).__name__)
+                        if random_region:
+                            w["scene"] = [dict(position=vec3(so.position), yaw=float(so.yaw), pitch=float(so.pitch), roll=float(so.roll),
+                                               dims=[float(so.width), float(so.length), float(so.height)],
+                                               visibleDistance=float(so.visibleDistance)) for so in kept[si].objects]
+                        outside.append(w)
             info["checked"] = len(accepted)
             info["outside"] = nout
         # non-positional properties untouched
@@ -291,6 +377,7 @@ def run_program(case):
         objs.append(info)
     out["objects"] = objs
     out["outside"] = outside
+    out["t_oracle"] = round(time.time() - t1 - out["compile_s"], 2)
     # the pruned scenario still generates
     ok = 0
     fails = 0
